@@ -236,7 +236,8 @@ PROPS["C01"] = {
     "level_note": _thr_note + "Store-level runs use the ideal reader/writer lock in place of RBMutex (whose own protocol is the second harness). Bounds: 2 clients x 2 ops, preemption bound 0 (quick) / 1 (thorough); plain, loading, entry-pool and doorkeeper configurations.",
     "assumptions": ["switching only at synchronisation operations is sound for data-race-free code (race freedom under the same bounds is C19's subject)"],
     "outside_bound": ["more than 2 clients or 2 operations each", "preemption bound above 1 (RBMutex harness: 2)", "timer ticks during the history"],
-    "quick": [H("ZZ_C01_LoadDeleteLoad", params={"PRE": 1}, reach=["history-complete", "deleted-after-seeing-the-loaded-value"], bounds="three clients on a loading cache: load, read-then-delete, load again after the Delete returned; preemptions 1"),
+    "quick": [H("ZZ_C10_HybridGetAfterClose", reach=["closed"], bounds="hybrid cache: Get / loading Get after Close of a key whose copy lives in the secondary tier"),
+              H("ZZ_C01_LoadDeleteLoad", params={"PRE": 1}, reach=["history-complete", "deleted-after-seeing-the-loaded-value"], bounds="three clients on a loading cache: load, read-then-delete, load again after the Delete returned; preemptions 1"),
               H("ZZ_C01_Linearizable", params={"PRE": 0}, reach=["history-complete"], bounds="2x2 ops, cap 1, preemptions 0"),
               H("ZZ_C01_Linearizable", params={"PRE": 0, "POOL": 1}, reach=["history-complete"], bounds="entry pool on"),
               H("ZZ_C01_Linearizable", params={"PRE": 0, "POOL": 1, "PRELUDE": 1}, reach=["history-complete"], bounds="entry pool on and holding a recycled entry"),
@@ -246,7 +247,8 @@ PROPS["C01"] = {
               H("ZZ_C13_LoadingWithWriter", params={"PRE": 1}, reach=["both-finished"], bounds="loading Get vs Set/Delete of the same key: load-and-store atomic with respect to writers"),
               H("ZZ_C05_DeleteVsReset", params={"PRE": 1}, reach=["drained"], bounds="Delete racing a Set of the same key: the old incarnation's eviction must not remove the new one"),
               H("ZZ_C01_RBMutex", params={"READERS": 2, "PRE": 2}, reach=["all-done"], bounds="1 writer, 2 readers, atomic granularity, preemptions 2")],
-    "thorough": [H("ZZ_C01_LoadDeleteLoad", params={"PRE": 2}, reach=["history-complete", "deleted-after-seeing-the-loaded-value"], bounds="preemptions 2"),
+    "thorough": [H("ZZ_C10_HybridGetAfterClose", reach=["closed"]),
+              H("ZZ_C01_LoadDeleteLoad", params={"PRE": 2}, reach=["history-complete", "deleted-after-seeing-the-loaded-value"], bounds="preemptions 2"),
               H("ZZ_C01_Linearizable", params={"PRE": 1}, reach=["history-complete"], bounds="2x2 ops, cap 1, preemptions 1"),
                  H("ZZ_C01_Linearizable", params={"PRE": 0, "POOL": 1, "POOLMODE": 2}, reach=["history-complete"], bounds="entry pool on, adversarial reuse"),
                  H("ZZ_C01_Linearizable", params={"PRE": 1, "POOL": 1, "POOLMODE": 2, "PRELUDE": 1}, reach=["history-complete"], bounds="entry pool holding a recycled entry, adversarial reuse, preemptions 1"),
@@ -355,12 +357,14 @@ PROPS["C16"] = {
     "level_note": _thr_note + "Counts are asserted per call (single client) plus the counter's atomicity; concurrent whole-history counting follows from those two, it is not explored as one program.",
     "assumptions": ["hybrid Get is outside the property (stats are in-memory only)"],
     "outside_bound": ["more than 2 concurrent counter updates"],
-    "quick": [H("ZZ_C06_History", params={"N": 2}, reach=["history-done"], bounds="N=2 calls: symbolic sequential histories (Set k1/k2 with symbolic cost and TTL, Get, Delete, clock advance, drain, tick) with the ledger: resident xor notified exactly once, REMOVED iff deleted, overwritten values never notified, accounting and wheel membership after drain, hits+misses = number of Gets"),
+    "quick": [H("ZZ_C13_Loading", params={"CALLERS": 2, "PRE": 1}, reach=["all-callers-finished"], bounds="two concurrent loading Gets of one absent key (shared load; value, error, panic or Goexit): every call counted exactly once"),
+              H("ZZ_C06_History", params={"N": 2}, reach=["history-done"], bounds="N=2 calls: symbolic sequential histories (Set k1/k2 with symbolic cost and TTL, Get, Delete, clock advance, drain, tick) with the ledger: resident xor notified exactly once, REMOVED iff deleted, overwritten values never notified, accounting and wheel membership after drain, hits+misses = number of Gets"),
               H("ZZ_C03_Range", reach=["range-done"], bounds="Range at an arbitrary instant (set time, TTL, read time symbolic, cached clock not refreshed): visits exactly the unexpired keys, once"),
               H("ZZ_C16_GetCounts", reach=["get-done"]), H("ZZ_C16_GetCounts", params={"LOADING": 1}, reach=["get-done"]),
               H("ZZ_C16_Counter", params={"PRE": 2}, reach=["adds-done"]), H("ZZ_C16_Views", reach=["views-done"]),
               H("ZZ_C04_LateUpdate", reach=["three-ticks"], bounds="EstimatedSize after a cost and TTL update that is applied after its deadline")],
-    "thorough": [H("ZZ_C06_History", params={"N": 3}, reach=["history-done"]),
+    "thorough": [H("ZZ_C13_Loading", params={"CALLERS": 3, "PRE": 1}, reach=["all-callers-finished"]),
+              H("ZZ_C06_History", params={"N": 3}, reach=["history-done"]),
               H("ZZ_C03_Range", reach=["range-done"]),
               H("ZZ_C16_GetCounts", reach=["get-done"]), H("ZZ_C16_GetCounts", params={"LOADING": 1}, reach=["get-done"]),
                  H("ZZ_C16_Counter", params={"PRE": 4, "POOLMODE": 2}, reach=["adds-done"]), H("ZZ_C16_Views", params={"N": 5}, reach=["views-done"])],
@@ -375,7 +379,8 @@ PROPS["C11"] = {
     "level_note": "Trusted: go/ssa, executor encoding, z3. " + _gob_note + "Source caches: 4-16 entries, unit or symbolic costs 1..3, optionally after two sample periods of the real hill climber or with the protected region above its size.",
     "assumptions": ["gob round-trips the values it is given (its contract, and the README's precondition on key/value types)", "N=4 entries, capacity 10"],
     "outside_bound": ["gob byte layout and 4 MiB thresholds as byte counts", "more than 4 entries", "arbitrary adaptive-split states (only those reached by the fill script)"],
-    "quick": [H("ZZ_C03_AfterLoad", params={"BITS": 33, "UFIX": 1}, reach=["read-after-load"], bounds="restored deadlines are judged against the adopted clock origin at once"),
+    "quick": [H("ZZ_C11_RoundTrip", params={"CAP": 1000, "N": 4, "COSTS": 1, "MAXCOST": 300, "SHRUNK": 9, "HITALL": 1}, reach=["loaded", "window-shrunk"], bounds="MaxSize 1000 after the climber shrank the window from 10 to 1: four entries with symbolic costs 1..300 that fill the enlarged protected region"),
+              H("ZZ_C03_AfterLoad", params={"BITS": 33, "UFIX": 1}, reach=["read-after-load"], bounds="restored deadlines are judged against the adopted clock origin at once"),
               H("ZZ_C11_RoundTrip", params={"SPLIT": 1, "COSTS": 1, "CAP2": 4}, reach=["loaded"], bounds="smaller target, symbolic costs, regions split over several blocks at arbitrary points"),
               H("ZZ_C11_RoundTrip", reach=["loaded"], bounds="4 entries, cap 10, same size, advance <= 2^31 ns symbolic"),
               H("ZZ_C11_RoundTrip", params={"COSTS": 1}, reach=["loaded"], bounds="symbolic costs 1..3"),
@@ -404,9 +409,11 @@ PROPS["C12"] = {
     "level_note": "Trusted: go/ssa, executor encoding, z3. " + _gob_note + "A damaged payload is modelled as 'decoder fails at the damaged item and the payload's checksum changes'; checksum collisions are excluded by construction.",
     "assumptions": ["no xxh3 collision between a payload and its damaged version"],
     "outside_bound": ["bit/byte-level corruption inside gob messages and type descriptors", "more than 2 simultaneous faults"],
-    "quick": [H("ZZ_C12_Faults", params={"FAULTS": 1}, reach=["recover-returned"], bounds="every single block-level fault"),
+    "quick": [H("ZZ_C12_Faults", params={"FAULTS": 1, "CAP2": 2, "N": 6}, reach=["recover-returned"], bounds="one block-level fault, loading cache smaller than the saved one (regions fill up before the stream ends)"),
+              H("ZZ_C12_Faults", params={"FAULTS": 1}, reach=["recover-returned"], bounds="every single block-level fault"),
               H("ZZ_C12_Faults", params={"FAULTS": 1, "VERSION": 1}, reach=["recover-returned"], bounds="version mismatch, with a fault")],
-    "thorough": [H("ZZ_C12_Faults", params={"FAULTS": 1}, reach=["recover-returned"]),
+    "thorough": [H("ZZ_C12_Faults", params={"FAULTS": 2, "CAP2": 2, "N": 6}, reach=["recover-returned"]), H("ZZ_C12_Faults", params={"FAULTS": 1, "CAP2": 4, "N": 8, "CAP": 20}, reach=["recover-returned"]),
+              H("ZZ_C12_Faults", params={"FAULTS": 1}, reach=["recover-returned"]),
                  H("ZZ_C12_Faults", params={"FAULTS": 1, "VERSION": 1}, reach=["recover-returned"]),
                  H("ZZ_C12_Faults", params={"FAULTS": 2}, reach=["recover-returned"], bounds="every pair of faults")],
 }
@@ -460,7 +467,9 @@ PROPS["C15"] = {
     "level_note": _thr_note + "Secondary store = harness map; one worker; queue never full (the property conditions on it).",
     "assumptions": ["workers given time to keep up (settle after each call)"],
     "outside_bound": ["more than 3 writes", "more than one worker"],
-    "quick": [H("ZZ_C15_VisibleWhileDemoted", params={"PRE": 1}, reach=["both-returned"], bounds="hybrid Get racing the (slow) secondary write of the evicted entry: the entry is in one of the tiers at any time"),
+    "quick": [H("ZZ_C14_SaveLoadHybrid", params={"PROMOTE": 0}, reach=["loaded"], bounds="entries restored by LoadCache into a hybrid cache are demoted on eviction like any other (still retrievable afterwards)"),
+              H("ZZ_C14_SaveLoadHybrid", params={"PROMOTE": 1}, reach=["loaded"]),
+              H("ZZ_C15_VisibleWhileDemoted", params={"PRE": 1}, reach=["both-returned"], bounds="hybrid Get racing the (slow) secondary write of the evicted entry: the entry is in one of the tiers at any time"),
               H("ZZ_C15_VisibleWhileDemoted", params={"PRE": 1, "LOADING": 1}, reach=["both-returned"], bounds="loading variant: no reload"),
               H("ZZ_C14_FailedDemotion", params={"PROMOTE": 0}, reach=["evicted"], bounds="failing secondary write: error handler per failure, memory within MaxSize"),
               H("ZZ_C15_Demotion", reach=["filled"]), H("ZZ_C15_Demotion", params={"FAIL": 1}, reach=["filled"], bounds="every failure pattern of 2 demotions"),
@@ -497,6 +506,9 @@ def _c19(pre):
             [(0, "Range || Set"), (1, "Len/EstimatedSize || Delete+Set"), (2, "Stats || Get"), (3, "17 Gets (read-buffer drain) || Sets with eviction and listener"),
              (4, "tick/expiry || SetWithTTL || Get"), (5, "Close || Get/Set"), (6, "Wait || Set"), (7, "SaveCache || Set/Delete"), (8, "SaveCache || tick/expiry || Get"), (10, "Close || Len / Range"), (11, "Close || EstimatedSize / Stats / Delete"), (9, "loading Get || Delete/Set")]]
 
+def _c19x(pre):
+    return _c19(pre) + [H("ZZ_C13_Group", params={"CALLERS": 2, "PRE": 1, "OTHER": 1}, reach=["all-callers-finished"], bounds="duplicate-suppression call records: a joined caller and a caller of another key sharing the record pool, happens-before monitor on")]
+
 PROPS["C19"] = {
     "title": "no data races in the default configuration (bounded)",
     "technique": "vector-clock (happens-before) race monitor inside the SSA executor over every heap cell loaded or stored, on two-thread programs of the real Store explored over all schedules within the preemption bound",
@@ -504,8 +516,8 @@ PROPS["C19"] = {
     "level_note": _thr_note + "Entry pool off, listener installed. Cells inside stubbed library objects and RBMutex internals (own harness under C01) are not monitored. Hybrid pairs are not among the programs; SaveCache runs with the gob stub.",
     "assumptions": ["ideal reader/writer lock for RBMutex"],
     "outside_bound": ["more than 2 client threads", "hybrid-cache pairs", "preemption bound above 1 (thorough 2)"],
-    "quick": _c19(1),
-    "thorough": _c19(2),
+    "quick": _c19x(1),
+    "thorough": _c19x(2),
 }
 
 NOT_APPLICABLE = [
